@@ -296,10 +296,16 @@ def gen_cases(ctx):
     elems = element_pool()
     strs = [st(s) for s in STRINGS]
     nonlists = [VNULL, num('1'), st('a'), cx(a=num('1'))]
+    # random lists (length 0..8, duplicates, nulls, nested) and random strings over the three planes: a few in the quick tier, many in the thorough tier
+    for _ in range(ctx.pick(4, 60)):
+        lists.append(lst(*[r.choice(elems) for _ in range(r.randint(0, 8))]))
+    for _ in range(ctx.pick(3, 40)):
+        STR_EXTRA = ''.join(r.choice(V9.CHARS) for _ in range(r.randint(1, 7)))
+        if '"' not in STR_EXTRA and '\\' not in STR_EXTRA:
+            strs.append(st(STR_EXTRA))
     # --- substring: every start x every length for every string
     for s in strs:
-        n = len(s.feel) - 2
-        n = len(STRINGS[strs.index(s)])
+        n = len(s.feel) - 2      # characters (code points) between the quotation marks
         for p in positions(n):
             add('substring', s, p)
             for ln in lengths(n):
@@ -478,70 +484,77 @@ def run(ctx):
     reqs, terms, meta = [], [], []
     for name, args in cases:
         pn = (BIFS[name][1] if name in BIFS else REF_NAMES[name]).get(len(args))
-        order = list(range(len(args)))
-        r.shuffle(order)
-        e = [positional_text(name, args)]
+        orders = []
         if pn:
-            e.append(named_text(name, pn, args, order))
-        reqs.append({'e': '[%s]' % ', '.join(e) if len(e) > 1 else '[%s, null]' % e[0]})
+            perms = list(itertools.permutations(range(len(args))))
+            if ctx.quick and len(perms) > 2:
+                orders = [list(perms[0])] + [list(r.choice(perms[1:]))]
+            else:
+                orders = [list(q) for q in perms]
+        e = [positional_text(name, args)] + [named_text(name, pn, args, o) for o in orders]
+        reqs.append({'e': '[%s, null]' % ', '.join(e)})
         if name in BIFS:
-            terms.append('(%s, %s)' % (coq_pos(name, args), coq_nam(name, pn, args, order) if pn else 'Some VNull'))
-        meta.append((name, args, pn, order))
+            terms.append('[%s]' % '; '.join([coq_pos(name, args)] + [coq_nam(name, pn, args, o) for o in orders]))
+        meta.append((name, args, pn, orders))
     impl = ctx.run_impl('feel', reqs, shards=16)
     model = ctx.run_model(HEADER, terms, shard_size=max(200, len(terms) // 16 + 1), tag='calls')
     mi = iter(model)
     per_bif = {}
     dbg = []
-    for (name, args, pn, order), ri in zip(meta, impl):
+    named_calls = 0
+
+    def shw(x):
+        return 'a panic' if x == 'TRAP' else show(x)
+
+    for (name, args, pn, orders), ri in zip(meta, impl):
         ctx.evaluations += 1
         per_bif[name] = per_bif.get(name, 0) + 1
         ptext = positional_text(name, args)
-        ntext = named_text(name, pn, args, order) if pn else None
-        case = {'function': name, 'positional': ptext, 'named': ntext}
+        ntexts = [named_text(name, pn, args, o) for o in orders]
+        case = {'function': name, 'positional': ptext, 'named': ntexts[-1] if ntexts else None}
         m = next(mi) if name in BIFS else None
         v = ri.get('v')
         if 'panic' in ri or 'crash' in ri:
-            # find out which of the two spellings traps
-            single = ctx.run_impl('feel', [{'e': ptext}] + ([{'e': ntext}] if ntext else []))
-            ip = 'TRAP' if ('panic' in single[0] or 'crash' in single[0]) else norm_impl(single[0].get('v'))
-            inn = None if not ntext else ('TRAP' if ('panic' in single[1] or 'crash' in single[1]) else norm_impl(single[1].get('v')))
-        elif not isinstance(v, list) or len(v) != 2:
+            # find out which of the spellings traps
+            single = ctx.run_impl('feel', [{'e': t} for t in [ptext] + ntexts])
+            got = ['TRAP' if ('panic' in a or 'crash' in a) else norm_impl(a.get('v')) for a in single]
+        elif not isinstance(v, list) or len(v) != len(ntexts) + 2:
             ctx.violation('%s could not be parsed or built: %s' % (ptext, ri), case, impl=ri)
             continue
         else:
-            ip, inn = norm_impl(v[0]), norm_impl(v[1])
+            got = [norm_impl(x) for x in v[:-1]]
+        ip, inns = got[0], got[1:]
         if name in BIFS:
-            sp, sn = norm_opt(m[0]), norm_opt(m[1])
-            if sp == 'TRAP':      # only the model of the pinned commit traps
-                sp = 'TRAP'
+            spec = [norm_opt(x) for x in m]
+            sp, sns = spec[0], spec[1:]
         else:
             try:
                 sp = ref_call(name, args)
             except KeyError:
                 sp = Ellipsis      # no reference for this argument tuple: only named = positional is checked
-            sn = sp if in_domain_for_named(name, args) else None
+            sns = [sp if in_domain_for_named(name, args) else None] * len(ntexts)
         if ip is not None and ip != 'TRAP':
             ctx.nontrivial.add(ptext)
         if sp is not Ellipsis:
             ctx.corr_checked += 1
             if ip != sp:
-                dbg.append((name, 'pos', ptext, show(ip) if ip != 'TRAP' else 'panic', show(sp)))
+                dbg.append((name, 'pos', ptext, shw(ip), shw(sp)))
             if ip != sp and not known_class(ctx, name, args, sp, ip):
-                ctx.violation('%s gives %s, the specified value is %s' % (ptext, show(ip) if ip != 'TRAP' else 'a panic', show(sp)), case,
-                              impl=show(ip) if ip != 'TRAP' else 'panic', specified=show(sp))
+                ctx.violation('%s gives %s, the specified value is %s' % (ptext, shw(ip), shw(sp)), case, impl=shw(ip), specified=shw(sp))
                 continue
-        if ntext:
+        for ntext, inn, sn in zip(ntexts, inns, sns):
+            named_calls += 1
+            ncase = dict(case, named=ntext)
             if sp is not Ellipsis and inn != sn:
-                dbg.append((name, 'nam', ntext, show(inn) if inn != 'TRAP' else 'panic', show(sn)))
-            elif in_domain_for_named(name, args) and inn != ip:
-                dbg.append((name, 'n/p', ntext, show(inn) if inn != 'TRAP' else 'panic', show(ip) if ip != 'TRAP' else 'panic'))
-            if sp is not Ellipsis and inn != sn and not known_class(ctx, name, args, sn, inn):
-                ctx.violation('%s gives %s, the specified value is %s' % (ntext, show(inn) if inn != 'TRAP' else 'a panic', show(sn)), case,
-                              impl=show(inn) if inn != 'TRAP' else 'panic', specified=show(sn))
-                continue
+                dbg.append((name, 'nam', ntext, shw(inn), shw(sn)))
+                if not known_class(ctx, name, args, sn, inn):
+                    ctx.violation('%s gives %s, the specified value is %s' % (ntext, shw(inn), shw(sn)), ncase, impl=shw(inn), specified=shw(sn))
+                    break
             if in_domain_for_named(name, args) and inn != ip:
-                ctx.violation('named and positional invocation differ: %s gives %s, %s gives %s' % (ptext, show(ip), ntext, show(inn)), case,
-                              impl={'positional': show(ip), 'named': show(inn)})
+                dbg.append((name, 'n/p', ntext, shw(inn), shw(ip)))
+                ctx.violation('named and positional invocation differ: %s gives %s, %s gives %s' % (ptext, shw(ip), ntext, shw(inn)), ncase,
+                              impl={'positional': shw(ip), 'named': shw(inn)})
+                break
     if os.environ.get('C08_DEBUG'):
         seen = {}
         for d in dbg:
@@ -551,7 +564,7 @@ def run(ctx):
             for d in ds[:int(os.environ.get('C08_DEBUG'))]:
                 print('      %s -> impl %s, specified %s' % (d[2], d[3], d[4]))
     for i in (5, len(cases) // 3, len(cases) // 2):
-        name, args, pn, order = meta[i]
+        name, args, pn, orders = meta[i]
         ctx.sample({'call': positional_text(name, args), 'impl': impl[i].get('v')})
     return ctx.finish(
         rule='substring: 11 strings over ASCII / BMP / supplementary planes x every start position from -(n+2) to n+2, 0, 1.0, -1.0, 1.5, 0.5, 2.00, 0.0, n.0, null, a string, 2^64, -2^63-1 '
@@ -559,9 +572,9 @@ def run(ctx):
              'different scale, nulls, nested lists, contexts, dates) x the same positions and lengths; index of / list contains: every list x 12 elements; union / concatenate / append: pairs and triples; '
              'min max sum mean median mode stddev: random number lists of length 0..8 with duplicates and scales plus null / string / mixed lists, list form and variadic form; all / any: every list '
              'over {true, false, null, 1} up to length %d; string predicates and substring before / after: every string x its prefixes, suffixes, infixes, non-matches, the empty string; '
-             'every function with 0..5 arguments; each call positionally and with named parameters in a random order of the names. non-trivial = a call whose result is not null'
+             'every function with 0..5 arguments; each call positionally and with named parameters (declared order + one random permutation of the names in the quick tier, all permutations in the thorough tier). non-trivial = a call whose result is not null'
              % ctx.pick(3, 4),
-        extra_cov={'calls_per_function': per_bif, 'functions': len(per_bif), 'model_variant': 'orig' if ORIG else 'current',
+        extra_cov={'calls_per_function': per_bif, 'named_invocations': named_calls, 'functions': len(per_bif), 'model_variant': 'orig' if ORIG else 'current',
                    'validated_only': sorted(REF_NAMES)},
         assumptions=['sums stay within 34 digits (operands are generated that small)', 'regular expressions: literal alphanumeric patterns only, no flags',
                      'named forms of the variadic aggregates are compared with the positional form for list arguments only (f(true) is the variadic spelling)'],
